@@ -123,7 +123,7 @@ def run(tier, seed):
     chk = Check("C10", tier, seed, "other")
     from ..kernels import c10_snapshots
     from ..kernels.base import run_kernel
-    for k in c10_snapshots.KERNELS:
+    for k in [q for q in c10_snapshots.KERNELS if q.prop == "C10"]:
         chk.add_kernel(run_kernel(k, tier))
     ok, sites, failing = rule_foreign_dicts()
     chk.add_rule("C10.S.foreign_dicts", ok, sites, failing)
